@@ -23,6 +23,7 @@ type job struct {
 	GoLoop    int    `json:"goloop,omitempty"` // KF witness: Go library loop over N catching callbacks
 	Calib     bool   `json:"calib,omitempty"`
 	Shape     string `json:"shape,omitempty"`
+	Setup     string `json:"setup,omitempty"`      // state construction / attach point, see newEnvS
 	Mode      string `json:"mode,omitempty"`       // "" DoString, "pcall", "resume"
 	RemoveCtx bool   `json:"remove_ctx,omitempty"` // SetContext, RemoveContext, cancel: must run like a context-free state
 	Class     string `json:"class"`
@@ -82,7 +83,7 @@ func runJob(j job) jobResult {
 	}
 
 	// trace run
-	tr := newEnvM(true, j.Cap+1, j.Reason, j.RemoveCtx, j.Mode)
+	tr := newEnvS(true, j.Cap+1, j.Reason, j.RemoveCtx, j.Mode, j.Setup)
 	var points []tracePoint
 	tr.c.onPoll = func(th *luaState, i int) {
 		s := tr.snapshot(th)
@@ -97,6 +98,11 @@ func runJob(j job) jobResult {
 	res.TraceOutc, _ = outcome(terr, reason)
 	res.Other = tr.c.other
 	res.NoInherit = tr.noInherit
+	if tr.notFresh {
+		res.CompileErr = "harness: setup " + j.Setup + " did not produce a state on which no call was ever made (G.MainThread already set)"
+		tr.close()
+		return res
+	}
 	if tr.c.n == 0 && !j.RemoveCtx {
 		// not a single Done() call came from lua.mainLoopWithContext although a context is attached
 		res.CompileErr = "no dispatch poll observed: the polling loop (lua.mainLoopWithContext) never called Done() on the attached context"
@@ -112,7 +118,7 @@ func runJob(j job) jobResult {
 	// reference run without a context
 	var refEmits []string
 	if !j.NoRef {
-		rf := newEnvM(false, 0, "", false, j.Mode)
+		rf := newEnvS(false, 0, "", false, j.Mode, j.Setup)
 		if !res.Terminated {
 			rf.maxEmits = len(tr.emits) + 1
 		}
@@ -165,7 +171,7 @@ func runJob(j job) jobResult {
 	}
 
 	for _, k := range ks {
-		e := newEnvM(true, k, j.Reason, false, j.Mode)
+		e := newEnvS(true, k, j.Reason, false, j.Mode, j.Setup)
 		var stack []string
 		before := 0
 		e.c.onFire = func(th *luaState) {
